@@ -336,7 +336,7 @@ Section Sim.
       destruct (ev_sandbox_denies env c e); [apply c17_sim_nil|].
       destruct e as [l|x|o a|o i|uo a|bo l r|q a b|es|kvs|o g args|g args|m g args|a t args neg].
       - apply c17_sim_lift.
-      - destruct (match rc_own_var c x with Some _ => None | None => rc_get_macro c x end) as [[tpl nm]|]; [apply c17_sim_ret|].
+      - match goal with |- c17_sim (match ?m with _ => _ end) _ => destruct m as [[tpl nm]|] end; [apply c17_sim_ret|].
         destruct (rc_hack_name x); [apply c17_sim_lift|apply c17_sim_ret].
       - apply c17_sim_bind; [apply Hev|]. intros obj. apply c17_sim_lift.
       - apply c17_sim_bind; [apply Hev|]. intros ov.
@@ -1134,7 +1134,7 @@ Proof.
   - intros fu env c x Hm Hh Hv Hp. cbn [eval]. unfold ev_expr.
     assert (Hd : ev_sandbox_denies env c (EVar x) = false).
     { unfold ev_sandbox_denies. destruct (rc_sandboxed c), (e_policy env); reflexivity. }
-    unfold rc_own_var. rewrite Hd, Hv, Hm, Hh. destruct c. cbn in *. rewrite Hv, Hp. reflexivity.
+    rewrite Hd. try unfold ev_var_macro. unfold rc_own_var. rewrite Hv, Hm, Hh. destruct c. cbn in *. rewrite Hv, Hp. reflexivity.
   - intros kvs a H. unfold vo_get_attr. cbn [vo_view]. rewrite H. reflexivity.
   - rewrite (C17_missing_include ev root env c e withs true only sb name t H). reflexivity.
   - rewrite (C17_missing_include ev root env c e withs false only sb name t H). reflexivity.
